@@ -98,6 +98,8 @@ pub struct Cfg
     pub setup_wr: (u64, u64),
     /// extra weight of `despawn(entity)` triggers in bundles
     pub despawn_trig_boost: u64,
+    /// reactors added with `App::add_reactor`
+    pub app_reactors: (u64, u64),
 }
 
 fn wset(pairs: &[(K, u32)]) -> [u32; NK] { let mut w = [0u32; NK]; for (k, v) in pairs { w[*k as usize] = *v; } w }
@@ -143,6 +145,7 @@ pub fn base_cfg() -> Cfg
         setup_ewr: (0, 0),
         setup_wr: (0, 0),
         despawn_trig_boost: 0,
+        app_reactors: (0, 1),
     }
 }
 
@@ -180,6 +183,7 @@ pub fn profile(name: &str) -> Cfg
             c.ops_per_script = (1, 4);
             c.runs_per_inst = (2, 4);
             c.pct_fallible = 30;
+            if name == "C13" { c.app_reactors = (0, 3); }
         }
         "C03" | "C12" =>
         {
@@ -240,6 +244,7 @@ pub fn profile(name: &str) -> Cfg
             c.hierarchy_pct = 40;
             c.steps = (3, 10);
             if name == "C08F" { c.frame_systems = (2, 5); c.pct_update_step = 45; c.pct_direct_step = 30; c.steps = (3, 9); }
+            else { c.signals = true; c.d_driver[D::Sig as usize] = 8; }
         }
         "C10" =>
         {
@@ -564,6 +569,9 @@ pub fn generate(seed: u64, base: &Cfg) -> Program
     let npre = g.r.range(g.c.pre_insts.0, g.c.pre_insts.1) as usize;
     for _ in 0..npre { let f = g.flavour(); g.insts.push(InstDef { flavour: f, origin: Origin::Pre, scripts: Vec::new() }); }
     g.targets = (0..npre as u8).collect();
+    let napp = g.r.range(g.c.app_reactors.0, g.c.app_reactors.1) as usize;
+    let app_first = g.insts.len();
+    for _ in 0..napp { let f = if g.r.chance(25) { Flavour::FallibleDrop } else { Flavour::Plain }; g.insts.push(InstDef { flavour: f, origin: Origin::App, scripts: Vec::new() }); }
     for k in 0..wrn { g.insts.push(InstDef { flavour: Flavour::Plain, origin: Origin::World(k as u8), scripts: Vec::new() }); g.wr.push(k as u8); }
     for k in 0..ewrn { g.insts.push(InstDef { flavour: Flavour::Plain, origin: Origin::EntityWorld(k as u8), scripts: Vec::new() }); g.ewr.push(k as u8); }
     let fixed = g.insts.len();
@@ -576,6 +584,7 @@ pub fn generate(seed: u64, base: &Cfg) -> Program
         let s = g.scripts(Some(i as Inst), f, 0);
         g.insts[i].scripts = s;
     }
+    for i in app_first..app_first + napp { let (lo, hi) = g.c.initial_bundle; let t = g.bundle(i as Inst, lo.max(1), hi.max(1)); prog.app_reactors.push((i as Inst, t)); }
     // step 0: initial registrations
     let mut setup = Vec::new();
     for i in 0..npre
